@@ -1,0 +1,18 @@
+//go:build verif
+
+// Contracts for the verifier in /verif (comment-only; compiled only with -tags verif, adds no code).
+package lang
+
+// ---- C10: the address a written reference denotes. One address step per traversal step, in the order
+// ---- written: the root name as a root step, `.name` as an attribute step with that name, `[key]` as an index
+// ---- step with that key. A traversal with any other kind of step (a splat) denotes no address: an error, and
+// ---- the scan never goes past such a step.
+//@ contract lang.TraversalToAddress (traversal) (result, err)
+//@   loop 1 invariant [C10] len(addr) == rangeindex + 1
+//@   loop 1 iter [C10,name:only-root-attribute-and-index-steps-are-passed] typeis(tr, "hcl.TraverseRoot") || typeis(tr, "hcl.TraverseAttr") || typeis(tr, "hcl.TraverseIndex")
+//@   loop 1 iter [C10,name:one-address-step-per-traversal-step] len(addr) == old(len(addr)) + 1
+//@   loop 1 iter [C10,name:root-name-as-root-step] implies(typeis(tr, "hcl.TraverseRoot"), typeis(addr[len(addr)-1], "lang.RootStep") && as(addr[len(addr)-1], "lang.RootStep").Name == as(tr, "hcl.TraverseRoot").Name)
+//@   loop 1 iter [C10,name:attribute-name-as-attribute-step] implies(typeis(tr, "hcl.TraverseAttr"), typeis(addr[len(addr)-1], "lang.AttrStep") && as(addr[len(addr)-1], "lang.AttrStep").Name == as(tr, "hcl.TraverseAttr").Name)
+//@   loop 1 iter [C10,name:index-key-as-index-step] implies(typeis(tr, "hcl.TraverseIndex"), typeis(addr[len(addr)-1], "lang.IndexStep") && as(addr[len(addr)-1], "lang.IndexStep").Key == as(tr, "hcl.TraverseIndex").Key)
+//@   ghost unknownStep after fmt.Errorf#1 : true
+//@   ensures [C10,name:as-many-steps-as-written] implies(!unknownStep, err == nil && len(result) == len(traversal))
